@@ -139,6 +139,7 @@ type AuditCase struct {
 	Partial   bool           `json:"partial"`
 	FailSync  int            `json:"fail_sync"`
 	HTTP      bool           `json:"http"` // calls go through the registered HTTP handlers and setec.Client (WhoIs table), not db.DB directly
+	Forwarded bool           `json:"forwarded,omitempty"` // HTTP only: every request carries forwarding headers naming some other address
 }
 
 // two names beyond any plausible line-length budget that differ only in their last byte
@@ -147,6 +148,7 @@ var c06Names = append(append([]string{}, c01Names...), c06LongA, c06LongB)
 
 func genAuditCase(rt *rapid.T) AuditCase {
 	c := AuditCase{HTTP: rapid.IntRange(0, 2).Draw(rt, "http") == 0}
+	c.Forwarded = c.HTTP && rapid.Bool().Draw(rt, "forwarded")
 	c.Pre = rapid.SliceOfN(rapid.Custom(func(rt *rapid.T) dbx.Op {
 		return dbx.GenOp(rt, c06Names, []string{"put", "put", "put", "activate", "delver"}, 1)
 	}), h.LenBias(rt, 0, 8), 8).Draw(rt, "pre")
@@ -191,6 +193,10 @@ func runC06(t *testing.T, c AuditCase) (*h.Violation, h.Info) {
 		ht, err := dbx.NewHTTP(d, callers)
 		if err != nil {
 			return h.V("harness", "server: %v", err), info
+		}
+		if c.Forwarded {
+			ht.Headers = map[string]string{"X-Forwarded-For": "203.0.113.9, 100.64.0.1", "X-Real-Ip": "203.0.113.9", "Forwarded": "for=203.0.113.9"}
+			info.Class("requests-carry-forwarding-headers")
 		}
 		tgt = ht
 		info.Class("through-http-handlers")
